@@ -121,6 +121,9 @@ func mappingFieldLoad(v ssa.Value) *types.Var {
 
 func writesByte(b *ssa.BasicBlock, ch byte) *ssa.Call {
 	for _, call := range callsIn(b) {
+		if _, rep := repeatOf(call, ch); rep != nil {
+			return call
+		}
 		if cal := call.Call.StaticCallee(); cal != nil && pkgPathOf(cal) == "strings" && (cal.Name() == "WriteByte" || cal.Name() == "WriteRune") {
 			if k, ok := constInt64(call.Call.Args[1]); ok && k == int64(ch) {
 				return call
@@ -370,12 +373,65 @@ func r9_1(c *Ctx, E, enc *ssa.Function) {
 		okc := false
 		for _, ob := range E.Blocks {
 			if iff := blockIf(ob); iff != nil {
-				if bo, ok := iff.Cond.(*ssa.BinOp); ok && bo.Op == token.LSS && condEdgeDominates(ob, true, b) {
-					if f := mappingFieldLoad(bo.Y); f != nil && f.Name() == "GeneratedLine" {
+				if bo, ok := iff.Cond.(*ssa.BinOp); ok {
+					// the edge on which counter < mapping line holds: c < L, L > c (true edge); c >= L, L <= c (false edge)
+					cx, ly, onTrue := bo.X, bo.Y, true
+					// (L - c) > 0, (L - c) >= 1, (L - c) != 0 is not accepted (negative differences), (L - c) <= 0 false edge
+					if sub, isSub := bo.X.(*ssa.BinOp); isSub && sub.Op == token.SUB {
+						if k, isK := constInt64(bo.Y); isK {
+							switch {
+							case bo.Op == token.GTR && k == 0, bo.Op == token.GEQ && k == 1:
+								bo = &ssa.BinOp{Op: token.LSS, X: sub.Y, Y: sub.X}
+							case bo.Op == token.LEQ && k == 0, bo.Op == token.LSS && k == 1:
+								bo = &ssa.BinOp{Op: token.GEQ, X: sub.Y, Y: sub.X}
+							}
+							cx, ly = bo.X, bo.Y
+						}
+					}
+					switch bo.Op {
+					case token.LSS:
+					case token.GTR:
+						cx, ly = bo.Y, bo.X
+					case token.GEQ:
+						onTrue = false
+					case token.LEQ:
+						cx, ly, onTrue = bo.Y, bo.X, false
+					default:
+						continue
+					}
+					if !condEdgeDominates(ob, onTrue, b) {
+						continue
+					}
+					if f := mappingFieldLoad(ly); f != nil && f.Name() == "GeneratedLine" {
 						// line counter incremented by one in the ';' block
-						if r, _ := headerPhiRoot(bo.X, header, map[ssa.Value]bool{}); r != nil {
+						if r, _ := headerPhiRoot(cx, header, map[ssa.Value]bool{}); r != nil {
+							// bulk form: Repeat(";", line - counter) and counter = line
+							if n, rep := repeatOf(call, ';'); rep != nil {
+								if sub, ok := n.(*ssa.BinOp); ok && sub.Op == token.SUB && sub.Y == cx {
+									if f2 := mappingFieldLoad(sub.X); f2 != nil && f2.Name() == "GeneratedLine" {
+										for _, blk := range E.Blocks {
+											for _, in := range blk.Instrs {
+												phi, ok := in.(*ssa.Phi)
+												if !ok {
+													break
+												}
+												for i, pred := range blk.Preds {
+													if pred != b {
+														continue
+													}
+													if f3 := mappingFieldLoad(phi.Edges[i]); f3 != nil && f3.Name() == "GeneratedLine" {
+														if rr, _ := headerPhiRoot(phi, header, map[ssa.Value]bool{}); rr == r || phi == r {
+															okc = true
+														}
+													}
+												}
+											}
+										}
+									}
+								}
+							}
 							for _, in := range b.Instrs {
-								if inc, ok := in.(*ssa.BinOp); ok && inc.Op == token.ADD && inc.X == bo.X {
+								if inc, ok := in.(*ssa.BinOp); ok && inc.Op == token.ADD && inc.X == cx {
 									if k, ok := constInt64(inc.Y); ok && k == 1 {
 										okc = true
 									}
@@ -426,7 +482,34 @@ func r9_2(c *Ctx, enc *ssa.Function, alphabet string, alphaIdx *ssa.Index) {
 	n := enc.Params[0]
 	var and, or32, shr, or1 *ssa.BinOp
 	var shls []*ssa.BinOp
+	// the sign conversion may live in a pure helper applied to n
+	signFn := enc
+	var signCall *ssa.Call
 	allInstrs(enc, func(_ *ssa.BasicBlock, _ int, in ssa.Instruction) {
+		call, ok := in.(*ssa.Call)
+		if !ok || signCall != nil {
+			return
+		}
+		h := call.Call.StaticCallee()
+		if h == nil || h.Pkg != enc.Pkg || h.Signature.Recv() != nil || len(h.Params) != 1 || len(call.Call.Args) != 1 || call.Call.Args[0] != ssa.Value(n) || h.Signature.Results().Len() != 1 {
+			return
+		}
+		pure := true
+		allInstrs(h, func(_ *ssa.BasicBlock, _ int, in2 ssa.Instruction) {
+			switch in2.(type) {
+			case *ssa.BinOp, *ssa.UnOp, *ssa.If, *ssa.Jump, *ssa.Return, *ssa.Phi, *ssa.DebugRef:
+			default:
+				pure = false
+			}
+		})
+		if pure {
+			signCall, signFn = call, h
+		}
+	})
+	if signFn != enc {
+		n = signFn.Params[0]
+	}
+	gather := func(_ *ssa.BasicBlock, _ int, in ssa.Instruction) {
 		bo, ok := in.(*ssa.BinOp)
 		if !ok {
 			return
@@ -446,7 +529,11 @@ func r9_2(c *Ctx, enc *ssa.Function, alphabet string, alphaIdx *ssa.Index) {
 		case token.SHL:
 			shls = append(shls, bo)
 		}
-	})
+	}
+	allInstrs(enc, gather)
+	if signFn != enc {
+		allInstrs(signFn, gather)
+	}
 	kOf := func(b *ssa.BinOp) int64 {
 		if b == nil {
 			return -1
@@ -495,7 +582,7 @@ func r9_2(c *Ctx, enc *ssa.Function, alphabet string, alphaIdx *ssa.Index) {
 			}
 		}
 		neg := false
-		for _, ob := range enc.Blocks {
+		for _, ob := range signFn.Blocks {
 			if iff := blockIf(ob); iff != nil {
 				if bo, ok := iff.Cond.(*ssa.BinOp); ok && bo.Op == token.LSS && bo.X == ssa.Value(n) {
 					if k, isK := constInt64(bo.Y); isK && k == 0 && condEdgeDominates(ob, true, or1.Block()) {
@@ -511,21 +598,136 @@ func r9_2(c *Ctx, enc *ssa.Function, alphabet string, alphaIdx *ssa.Index) {
 			}
 		}
 		signOK = signOK && neg
+		// the non-negative form shifts n itself
+		for _, sh := range shls {
+			if sh != or1.X && sh.X != ssa.Value(n) {
+				signOK = false
+			}
+		}
+	}
+	// the digit loop consumes the sign-converted value: what is masked is, on entry to the loop, one of the two
+	// converted forms (or the helper's result), and afterwards the shifted remainder
+	if signOK && and != nil && shr != nil {
+		leaves := func(v ssa.Value) map[ssa.Value]bool {
+			out := map[ssa.Value]bool{}
+			seen := map[ssa.Value]bool{}
+			var walk func(v ssa.Value)
+			walk = func(v ssa.Value) {
+				if seen[v] {
+					return
+				}
+				seen[v] = true
+				if phi, ok := v.(*ssa.Phi); ok {
+					for _, e := range phi.Edges {
+						walk(e)
+					}
+					return
+				}
+				out[v] = true
+			}
+			walk(v)
+			return out
+		}
+		converted := map[ssa.Value]bool{ssa.Value(or1): true}
+		for _, sh := range shls {
+			if ssa.Value(sh) != or1.X {
+				converted[sh] = true
+			}
+		}
+		fed := leaves(and.X)
+		delete(fed, ssa.Value(shr))
+		linked := len(fed) > 0
+		if signCall != nil {
+			// the helper returns exactly the converted forms, and the loop starts from its result
+			rets := map[ssa.Value]bool{}
+			allInstrs(signFn, func(_ *ssa.BasicBlock, _ int, in ssa.Instruction) {
+				if r, ok := in.(*ssa.Return); ok {
+					for v := range leaves(r.Results[0]) {
+						rets[v] = true
+					}
+				}
+			})
+			for v := range rets {
+				if !converted[v] {
+					linked = false
+				}
+			}
+			linked = linked && len(rets) == len(converted) && len(fed) == 1 && fed[ssa.Value(signCall)]
+		} else {
+			for v := range fed {
+				if !converted[v] {
+					linked = false
+				}
+			}
+			linked = linked && len(fed) == len(converted)
+		}
+		c.check(linked, "digit loop starts from the sign-converted value", posOf(and, enc), "the masked value is the converted n on entry and the shifted remainder afterwards", "the digit loop does not run over the sign-converted value (the sign bit is lost or the raw value is encoded)")
 	}
 	c.check(signOK, "sign in the least significant bit", posOf(or1, enc), "(−n << 1) | 1 for negative n, n << 1 otherwise", "the sign is not encoded as the least significant bit of the first group ((-n<<1)|1 for n<0, n<<1 otherwise)")
 	// termination: loop exits when the remainder is zero
 	termOK := false
+	// zeroExit: the successor index taken exactly when the shifted remainder is zero (-1: not such a test). The test may
+	// be carried in a flag: a phi that is `true` on entry and `remainder != 0` around the loop.
+	var zeroExit func(cond ssa.Value, depth int) int
+	zeroExit = func(cond ssa.Value, depth int) int {
+		if depth > 3 || shr == nil {
+			return -1
+		}
+		switch x := cond.(type) {
+		case *ssa.BinOp:
+			if x.X == ssa.Value(shr) {
+				if k, isK := constInt64(x.Y); isK && k == 0 {
+					switch x.Op {
+					case token.EQL:
+						return 0
+					case token.NEQ, token.GTR:
+						return 1
+					}
+				}
+			}
+		case *ssa.UnOp:
+			if x.Op == token.NOT {
+				if i := zeroExit(x.X, depth+1); i >= 0 {
+					return 1 - i
+				}
+			}
+		case *ssa.Phi:
+			idx := -2
+			for _, e := range x.Edges {
+				if k, ok := e.(*ssa.Const); ok && k.Value != nil && k.Value.Kind() == constant.Bool {
+					// entry edge: the loop is entered (true with exit-on-false, false with exit-on-true)
+					want := 1
+					if !constant.BoolVal(k.Value) {
+						want = 0
+					}
+					if idx == -2 {
+						idx = want
+					} else if idx != want {
+						return -1
+					}
+					continue
+				}
+				i := zeroExit(e, depth+1)
+				if i < 0 {
+					return -1
+				}
+				if idx == -2 {
+					idx = i
+				} else if idx != i {
+					return -1
+				}
+			}
+			if idx >= 0 {
+				return idx
+			}
+		}
+		return -1
+	}
 	for _, ob := range enc.Blocks {
 		if iff := blockIf(ob); iff != nil && shr != nil {
-			if bo, ok := iff.Cond.(*ssa.BinOp); ok && bo.X == ssa.Value(shr) {
-				if k, isK := constInt64(bo.Y); isK && k == 0 {
-					exitIdx := -1
-					switch bo.Op {
-					case token.EQL:
-						exitIdx = 0
-					case token.NEQ, token.GTR:
-						exitIdx = 1
-					}
+			{
+				{
+					exitIdx := zeroExit(iff.Cond, 0)
 					if exitIdx >= 0 {
 						// exit edge leads to a return without passing the loop body again
 						s := ob.Succs[exitIdx]
@@ -571,15 +773,11 @@ func r9_2(c *Ctx, enc *ssa.Function, alphabet string, alphaIdx *ssa.Index) {
 				if inLoop(s2) {
 					continue
 				}
-				zeroExit := false
+				isZeroExit := false
 				if iff := blockIf(b); iff != nil {
-					if bo, ok := iff.Cond.(*ssa.BinOp); ok && bo.X == ssa.Value(shr) {
-						if k, isK := constInt64(bo.Y); isK && k == 0 {
-							zeroExit = (bo.Op == token.EQL && i == 0) || ((bo.Op == token.NEQ || bo.Op == token.GTR) && i == 1)
-						}
-					}
+					isZeroExit = zeroExit(iff.Cond, 0) == i
 				}
-				if !zeroExit {
+				if !isZeroExit {
 					p := ""
 					if iff := blockIf(b); iff != nil {
 						p = c.pos(iff.Cond.Pos())
@@ -620,6 +818,39 @@ func r9_3(c *Ctx) {
 		c.unres("anchors", token.NoPos, "names/nameIndex fields, AddNamedMapping or New not found")
 		return
 	}
+	// the interner: AddNamedMapping itself, or a private helper it calls with its name parameter
+	outer := add
+	var internCall *ssa.Call
+	hasLookup := func(f *ssa.Function) bool {
+		found := false
+		allInstrs(f, func(_ *ssa.BasicBlock, _ int, in ssa.Instruction) {
+			if lk, ok := in.(*ssa.Lookup); ok && lk.CommaOk {
+				if _, ok := isFieldLoad(lk.X, idx); ok {
+					found = true
+				}
+			}
+		})
+		return found
+	}
+	if !hasLookup(add) {
+		allInstrs(add, func(_ *ssa.BasicBlock, _ int, in ssa.Instruction) {
+			call, ok := in.(*ssa.Call)
+			if !ok || internCall != nil {
+				return
+			}
+			h := call.Call.StaticCallee()
+			if h == nil || h.Pkg != add.Pkg || !hasLookup(h) || h.Signature.Results().Len() != 1 {
+				return
+			}
+			if _, closed := c.argsAtCallers(h, 0); !closed {
+				return
+			}
+			internCall = call
+		})
+		if internCall != nil {
+			add = internCall.Call.StaticCallee()
+		}
+	}
 	for _, f := range c.libFunctions() {
 		allInstrs(f, func(_ *ssa.BasicBlock, _ int, in ssa.Instruction) {
 			switch x := in.(type) {
@@ -655,24 +886,78 @@ func r9_3(c *Ctx) {
 	c.ok("AddNamedMapping: memo lookup", lookup.Pos(), "nameIndex[name] with the name parameter")
 	// the NameIndex stored in the mapping
 	var nameIdxStore *ssa.Store
-	allInstrs(add, func(_ *ssa.BasicBlock, _ int, in ssa.Instruction) {
-		if st, ok := in.(*ssa.Store); ok {
-			if fa, ok := st.Addr.(*ssa.FieldAddr); ok && namedIs(fa.X.Type(), "sourcemap", "Mapping") && fieldOfAddr(fa).Name() == "NameIndex" {
-				nameIdxStore = st
+	nstores := 0
+	for _, f := range c.libFunctions("sourcemap") {
+		allInstrs(f, func(_ *ssa.BasicBlock, _ int, in ssa.Instruction) {
+			if st, ok := in.(*ssa.Store); ok {
+				if fa, ok := st.Addr.(*ssa.FieldAddr); ok && namedIs(fa.X.Type(), "sourcemap", "Mapping") && fieldOfAddr(fa).Name() == "NameIndex" {
+					if k, isK := constInt64(st.Val); isK && k == 0 {
+						return // an unnamed mapping
+					}
+					nameIdxStore = st
+					nstores++
+				}
 			}
-		}
-	})
-	if nameIdxStore == nil {
-		c.bad("AddNamedMapping: NameIndex of the mapping", add.Pos(), "no NameIndex is stored")
+		})
+	}
+	if nameIdxStore == nil || nstores != 1 {
+		c.bad("AddNamedMapping: NameIndex of the mapping", add.Pos(), "expected exactly one store of a NameIndex, found %d", nstores)
 		return
 	}
 	// value: phi[hit: extract 0 of the lookup, miss: len(names) taken before the append]
 	var hitV, missV ssa.Value
 	var vals []ssa.Value
-	if phi, ok := nameIdxStore.Val.(*ssa.Phi); ok {
-		vals = phi.Edges
+	result := nameIdxStore.Val
+	if internCall != nil {
+		// the mapping gets the helper's result for this very name (directly, or through a recording helper's parameter)
+		okArg := false
+		for i, a := range internCall.Call.Args {
+			if i > 0 && a == ssa.Value(outerNameParam(outer)) {
+				okArg = true
+			}
+		}
+		flows := result == ssa.Value(internCall)
+		if par, isPar := result.(*ssa.Parameter); isPar && !flows {
+			pi := -1
+			for i, q := range par.Parent().Params {
+				if q == par {
+					pi = i
+				}
+			}
+			if args, closed := c.argsAtCallers(par.Parent(), pi); closed {
+				n := 0
+				for _, a := range args {
+					if a == ssa.Value(internCall) {
+						n++
+					} else if k, isK := constInt64(a); !isK || k != 0 {
+						n = -100
+					}
+				}
+				flows = n == 1
+			}
+		}
+		if !okArg || !flows {
+			c.bad("AddNamedMapping: NameIndex of the mapping", nameIdxStore.Pos(), "the mapping's NameIndex is not the interner's result for the name being mapped")
+			return
+		}
+		result = nil
+		allInstrs(add, func(_ *ssa.BasicBlock, _ int, in ssa.Instruction) {
+			if ret, ok := in.(*ssa.Return); ok && len(ret.Results) == 1 {
+				if result != nil && result != ret.Results[0] {
+					vals = append(vals, ret.Results[0])
+				}
+				result = ret.Results[0]
+			}
+		})
+		if result == nil {
+			c.bad("AddNamedMapping: NameIndex of the mapping", add.Pos(), "the interner returns nothing")
+			return
+		}
+	}
+	if phi, ok := result.(*ssa.Phi); ok {
+		vals = append(vals, phi.Edges...)
 	} else {
-		vals = []ssa.Value{nameIdxStore.Val}
+		vals = append(vals, result)
 	}
 	for _, v := range vals {
 		if ex, ok := v.(*ssa.Extract); ok && ex.Tuple == ssa.Value(lookup) && ex.Index == 0 {
@@ -937,6 +1222,7 @@ func r9_5(c *Ctx) {
 	for pi, p := range paths {
 		// facts
 		isCR, isLF, nextLF := 0, 0, 0 // 1 true, -1 false, 0 unknown
+		infeasible := false
 		for bi, b := range p.blocks {
 			iff := blockIf(b)
 			if iff == nil || bi+1 > len(p.blocks) {
@@ -954,25 +1240,63 @@ func r9_5(c *Ctx) {
 			} else {
 				taken = -1
 			}
-			if bo, ok := iff.Cond.(*ssa.BinOp); ok && bo.Op == token.EQL {
-				if k, ok := constInt64(unwrap(bo.Y)); ok {
-					if off, ok := byteAt(bo.X, p.blocks); ok {
-						switch {
-						case off == 0 && k == '\r':
-							isCR = taken
-						case off == 0 && k == '\n':
-							isLF = taken
-						case off == 1 && k == '\n':
+			// strings.HasPrefix(s[i+k:], "<one byte>"): true exactly when byte i+k exists and equals it
+			if hp, ok := iff.Cond.(*ssa.Call); ok && hp.Call.StaticCallee() != nil && pkgPathOf(hp.Call.StaticCallee()) == "strings" && hp.Call.StaticCallee().Name() == "HasPrefix" {
+				if sl, ok := hp.Call.Args[0].(*ssa.Slice); ok && sl.X == ssa.Value(s) && sl.Low != nil && sl.High == nil {
+					if kc, ok := hp.Call.Args[1].(*ssa.Const); ok && kc.Value != nil && kc.Value.Kind() == constant.String && constant.StringVal(kc.Value) == "\n" {
+						if off, ok := lin(sl.Low, p.blocks); ok && off == 1 {
+							if nextLF == -taken {
+								infeasible = true
+							}
 							nextLF = taken
 						}
 					}
 				}
 			}
+			if bo, ok := iff.Cond.(*ssa.BinOp); ok && (bo.Op == token.EQL || bo.Op == token.NEQ) {
+				if bo.Op == token.NEQ {
+					taken = -taken
+				}
+				set := func(f *int) {
+					if *f == -taken {
+						infeasible = true
+					}
+					*f = taken
+				}
+				if k, ok := constInt64(unwrap(bo.Y)); ok {
+					if off, ok := byteAt(bo.X, p.blocks); ok {
+						switch {
+						case off == 0 && k == '\r':
+							set(&isCR)
+						case off == 0 && k == '\n':
+							set(&isLF)
+						case off == 1 && k == '\n':
+							set(&nextLF)
+						}
+					}
+				}
+			}
+		}
+		// one byte cannot be both CR and LF
+		if isCR == 1 && isLF == 1 || infeasible {
+			continue
 		}
 		// effects
 		lines, colZero, colInc, other := 0, 0, 0, 0
-		for _, b := range p.blocks {
-			for _, in := range b.Instrs {
+		var effects func(instrs []ssa.Instruction, depth int)
+		effects = func(instrs []ssa.Instruction, depth int) {
+			for _, in := range instrs {
+				if call, isCall := in.(*ssa.Call); isCall {
+					// a method of the mapper: its straight-line body counts as if written here
+					if cal := call.Call.StaticCallee(); cal != nil && cal.Pkg == as.Pkg && cal.Signature.Recv() != nil && len(call.Call.Args) > 0 && call.Call.Args[0] == ssa.Value(as.Params[0]) {
+						if len(cal.Blocks) == 1 && depth < 2 {
+							effects(cal.Blocks[0].Instrs, depth+1)
+						} else {
+							other++
+						}
+					}
+					continue
+				}
 				st, ok := in.(*ssa.Store)
 				if !ok {
 					continue
@@ -1008,6 +1332,9 @@ func r9_5(c *Ctx) {
 					other++
 				}
 			}
+		}
+		for _, b := range p.blocks {
+			effects(b.Instrs, 0)
 		}
 		adv, okAdv := lin(iPhi.Edges[latchIdx], append(append([]*ssa.BasicBlock(nil), p.blocks...), header))
 		if !okAdv {
@@ -1048,4 +1375,31 @@ func r9_5(c *Ctx) {
 		ws = append(ws, w)
 	}
 	sort.Strings(ws)
+}
+
+func outerNameParam(f *ssa.Function) *ssa.Parameter {
+	var out *ssa.Parameter
+	for _, p := range f.Params {
+		if b, ok := p.Type().Underlying().(*types.Basic); ok && b.Kind() == types.String {
+			out = p
+		}
+	}
+	return out
+}
+
+// repeatOf: call is WriteString(strings.Repeat("<ch>", n)); returns n and the Repeat call.
+func repeatOf(call *ssa.Call, ch byte) (ssa.Value, *ssa.Call) {
+	cal := call.Call.StaticCallee()
+	if cal == nil || pkgPathOf(cal) != "strings" || cal.Name() != "WriteString" || len(call.Call.Args) != 2 {
+		return nil, nil
+	}
+	rep, ok := call.Call.Args[1].(*ssa.Call)
+	if !ok || rep.Call.StaticCallee() == nil || pkgPathOf(rep.Call.StaticCallee()) != "strings" || rep.Call.StaticCallee().Name() != "Repeat" {
+		return nil, nil
+	}
+	k, ok := rep.Call.Args[0].(*ssa.Const)
+	if !ok || k.Value == nil || k.Value.Kind() != constant.String || constant.StringVal(k.Value) != string(ch) {
+		return nil, nil
+	}
+	return rep.Call.Args[1], rep
 }
